@@ -269,7 +269,8 @@ def rw_pub_fields(text: str) -> str:
   o = text.find('{')
   if o < 0:
     # tuple struct: struct Label(u32);
-    return re.sub(r'\(\s*(?!pub\b)', '(pub ', text, count=1)
+    k = re.search(r'\bstruct\b', text).start()
+    return text[:k] + re.sub(r'\(\s*(?!pub\b)', '(pub ', text[k:], count=1)
   c = text.rindex('}')
   body = text[o + 1:c]
   toks = rsitems.lex(body)
@@ -372,6 +373,18 @@ def splice_fn(text: str, c: Optional[FnContract], item_path: str) -> List[Tuple[
       raise Undecided('%s: @loop %d but function has %d loop(s)' % (item_path, k, len(a.loops)))
     ins.append((a.loops[k - 1][2], 1, 'contract', 'loop %d' % k, '\n' + inv + '\n'))
   for anchor, ptxt in c.proofs:
+    if anchor.rstrip().endswith('#*'):
+      base = anchor.rstrip()[:-2].rstrip()
+      k = 0
+      while True:
+        try:
+          off = resolve_anchor(text, a, '%s #%d' % (base, k), item_path)
+        except Undecided:
+          if k == 0: raise
+          break
+        ins.append((off, 2, 'proof', '%s #%d' % (base, k), '\n' + ptxt + '\n'))
+        k += 1
+      continue
     off = resolve_anchor(text, a, anchor, item_path)
     ins.append((off, 2, 'proof', anchor, '\n' + ptxt + '\n'))
   ins.sort(key=lambda x: (x[0], x[1]))
@@ -411,6 +424,7 @@ def resolve_anchor(text: str, a: rsitems.FnAnatomy, anchor: str, item_path: str)
   except ScanError as ex:
     raise Undecided('%s: %s' % (item_path, ex))
   if m.group(1) == 'before': return s
+  if text[:e].rstrip().endswith(';'): return e
   # after: past the next ';' at the same bracket depth
   toks = [t for t in rsitems.lex(text) if t.start >= e]
   depth = 0
@@ -440,6 +454,8 @@ def build_unit(name: str, variant: Optional[str] = None, canary: bool = False) -
         c.proofs.insert(0, ('body_start', '  proof { assert(false); } // vacuity canary'))
   prelude = open(os.path.join(d, 'prelude.rs'), encoding='utf-8').read() if os.path.exists(os.path.join(d, 'prelude.rs')) else ''
   spec = open(os.path.join(d, 'spec.rs'), encoding='utf-8').read() if os.path.exists(os.path.join(d, 'spec.rs')) else ''
+  for sh in cfg.get('shared', []):
+    spec = open(os.path.join(VX, 'shared', sh), encoding='utf-8').read() + '\n' + spec
   if variant and os.path.exists(os.path.join(d, 'spec.%s.rs' % variant)):
     spec += '\n' + open(os.path.join(d, 'spec.%s.rs' % variant), encoding='utf-8').read()
 
@@ -469,15 +485,17 @@ def build_unit(name: str, variant: Optional[str] = None, canary: bool = False) -
       if not _target_matches(target, item_path, kind): continue
       before = new
       try:
-        if rule == 'R1': new = rw_mut_self(new)
+        if 'pat' in args:
+          # generic checked substitution; the rule id names the DESIGN.md table row
+          new = rw_subst(new, args['pat'], args['rep'], count=args.get('count'), regex=args.get('regex', False),
+                         min_count=args.get('min', 1 if not args.get('optional') else 0))
+        elif rule == 'R1': new = rw_mut_self(new)
         elif rule == 'R2': new = rw_slice_match(new)
         elif rule == 'R10': new = rw_project_struct(new, args['keep'])
         elif rule == 'R7f': new = rw_pub_fields(new)
         elif rule == 'R11': new = rw_derive(new, args.get('drop', []), args.get('add', []))
         else:
-          # generic checked substitution; rule id names the DESIGN.md table row
-          new = rw_subst(new, args['pat'], args['rep'], count=args.get('count'), regex=args.get('regex', False),
-                         min_count=args.get('min', 1 if not args.get('optional') else 0))
+          raise Undecided('unknown rewrite rule %s' % rule)
       except ScanError as ex:
         raise Undecided('rewrite %s on %s: %s' % (rule, item_path, ex))
       if new != before:
@@ -594,6 +612,7 @@ def _emit_item(it, kind, path, relfile, rf, contracts, used, chunks, items_meta,
 _VC_PATTERNS = [
   (r'postcondition not satisfied', 'post'),
   (r'precondition not satisfied', 'pre'),
+  (r'precondition not met', 'pre'),
   (r'assertion failed', 'assert'),
   (r'possible arithmetic underflow/overflow', 'overflow'),
   (r'possible division by zero', 'divzero'),
@@ -676,7 +695,8 @@ def run_verus(ub: UnitBuild, extra_args: Optional[List[str]] = None, timeout: in
       if _RLIMIT.search(msg): rl.append(d.get('rendered', msg))
       else: fe.append(d.get('rendered', msg))
       continue
-    spans = d.get('spans', [])
+    spans = [_in_unit_span(sp, ub.path) for sp in d.get('spans', [])]
+    spans = [sp for sp in spans if sp is not None]
     prim = [s for s in spans if s.get('is_primary')] or spans
     sec = [s for s in spans if not s.get('is_primary')]
     # the function whose proof failed: the span that lies inside an extracted fn's segments
@@ -730,6 +750,22 @@ def run_canaries(ub0: UnitBuild, name: str, variant: Optional[str]) -> dict:
   failed = {f.function for f in r.failures if f.kind == 'assert' and 'false' in f.clause}
   vac = [p for p in want if p not in failed]
   return {'checked': len(want), 'vacuous': vac, 'cmd': r.cmd + '   # canary run: assert(false) at the start of every contracted body'}
+
+
+def _in_unit_span(sp: dict, unit_path: str) -> Optional[dict]:
+  """a span inside a macro expansion (debug_assert!, matches!, ...) is reported at the macro's definition;
+  follow the expansion chain back to the call site in the unit file"""
+  base = os.path.basename(unit_path)
+  cur = sp
+  for _ in range(8):
+    if cur is None: return None
+    if os.path.basename(cur.get('file_name', '')) == base: 
+      if cur is not sp:
+        cur = dict(cur); cur['is_primary'] = sp.get('is_primary', False)
+      return cur
+    exp = cur.get('expansion')
+    cur = exp.get('span') if exp else None
+  return None
 
 
 def _enclosing_spec_fn(ub: UnitBuild, byte_off: int) -> str:
